@@ -190,7 +190,17 @@ def judge_history(case) -> Verdict:
     limit = 16
     if len(R.nc_bits(wild)) > 8:
         raise Invalid()
-    obj = _mk(cls, f"{R.int2ip(base)} {R.int2ip(wild)}")
+    if case.get("born_group"):
+        # an Address that starts its life as a group reference with members and is then re-addressed
+        if cls != "Address":
+            raise Invalid()
+        from cisco_acl import Address
+
+        obj = Address("object-group G1", items=[f"{R.int2ip(b & ~w & ALL1)} {R.int2ip(w)}" for b, w in case["born_group"]])
+        _ = obj.ipnets()
+        obj.line = f"{R.int2ip(base)} {R.int2ip(wild)}"
+    else:
+        obj = _mk(cls, f"{R.int2ip(base)} {R.int2ip(wild)}")
     queried = False
     reassigned_after_query = False
     kinds = set()
@@ -285,12 +295,15 @@ def history(draw):
             ops.append(["set", p[0], p[1]])
         elif kind == "over":
             # a mask above the current limit: must be refused
-            ops.append(["set", draw(base_st()), 0x55555554 | draw(st.integers(0, 1))])
+            ops.append(["set", draw(base_st()), 0xFFFFFFFE])  # 31 non-contiguous bits: above every limit
         elif kind == "max":
-            ops.append(["max", draw(st.integers(8, 30))])
+            ops.append(["max", draw(st.one_of(st.integers(0, 4), st.integers(8, 30)))])  # also below the current k
         else:
             ops.append([kind])
-    return {"cls": cls, "init": init, "ops": ops}
+    case = {"cls": cls, "init": init, "ops": ops}
+    if cls == "Address" and draw(st.booleans()):
+        case["born_group"] = [draw(small_pair()) for _ in range(draw(st.integers(1, 3)))]
+    return case
 
 
 SUBS = [
